@@ -1,15 +1,295 @@
 package storage
 
 import (
+	"fmt"
+	"sync"
+	"testing"
+
+	"pgregory.net/rapid"
+
+	"verif/lib/evid"
 	"verif/lib/host"
 	"verif/lib/storgen"
 )
 
-type contFacts struct {
-	maxSlabs  int
-	shrankBig bool
+// ---------------------------------------------------------------- C20
+
+var (
+	contBaseMu sync.Mutex
+	contBase   = map[[3]int]*host.Host{}
+)
+
+// contBaseHost returns a fresh host with contract D (for the element/key type) deployed and
+// the three containers created.
+func contBaseHost(eng host.Engine, elem, key int) (*host.Host, string) {
+	contBaseMu.Lock()
+	defer contBaseMu.Unlock()
+	k := [3]int{int(eng), elem, key}
+	if h, ok := contBase[k]; ok {
+		return h.Fork(), ""
+	}
+	h := host.New()
+	r := h.Deploy(host.Addr(1), "D", storgen.ContContract(elem, key), eng)
+	if r.Err != nil || r.Panic != nil {
+		return nil, fmt.Sprintf("deploying the container contract failed on %s: %s", eng, errText(r))
+	}
+	r = h.Tx(storgen.ContInitSource(elem, key), nil, mapSigners[:1], host.Options{Engine: eng})
+	if r.Err != nil || r.Panic != nil {
+		return nil, fmt.Sprintf("creating the containers failed on %s: %s", eng, errText(r))
+	}
+	contBase[k] = h
+	return h.Fork(), ""
 }
 
+type contFacts struct {
+	maxSlabs   int
+	shrankBig  bool // a bulk removal of ≥ 60 elements or the removal of a non-inlined element
+	badIndex   bool
+	split      bool // a single operation added ≥ 60 elements (crosses a slab split for every element type)
+	reloads    int  // committed transactions (each followed by a reload in the next execution)
+	maxLen     int
+	committed  int
+	failed     int
+	scripts    int
+	localExecs int
+}
+
+func (f contFacts) nontrivial() bool { return f.split && f.reloads >= 2 && f.badIndex }
+
+func verifyContState(h *host.Host, eng host.Engine, m *storgen.ContModel) string {
+	r := h.Script(storgen.ContVerifyScript(m.Elem, m.Key), nil, host.Options{Engine: eng})
+	if r.Err != nil || r.Panic != nil {
+		return "verification script failed: " + errText(r)
+	}
+	got, err := stringArray(r.Value)
+	if err != nil {
+		return "verification script: " + err.Error()
+	}
+	want := m.VerifyExpect()
+	names := []string{"variable-sized array", "constant-sized array", "dictionary"}
+	for i := range want {
+		if i >= len(got) || got[i] != want[i] {
+			return fmt.Sprintf("stored %s differs from the model after reload: digest (length:hash) %v, model %s", names[i], got, want[i])
+		}
+	}
+	return ""
+}
+
+// runContHistory executes the history on one engine against the slice/map model.
 func runContHistory(hist storgen.ContHistory, eng host.Engine, health bool, hooks *execHooks) (string, contFacts) {
-	return "", contFacts{}
+	var f contFacts
+	h, msg := contBaseHost(eng, hist.Elem, hist.Key)
+	if msg != "" {
+		return msg, f
+	}
+	m := storgen.NewContModel(hist.Elem, hist.Key)
+	for i, e := range hist.Execs {
+		x := m.Step(e)
+		src := e.Source(hist.Elem, hist.Key)
+		where := fmt.Sprintf("[%s] exec %d (%s, %s)", eng, i, map[bool]string{true: "script", false: "transaction"}[e.Script], map[bool]string{true: "loaded values", false: "storage references"}[e.Local])
+		info := execInfo{idx: i, src: src, script: e.Script, expectFail: x.Fail != "", commits: x.Commits,
+			mutatedFirst: (e.Local && len(x.Logs) > 0) || contMutates(e, x)}
+		if hooks != nil && hooks.before != nil {
+			if msg := hooks.before(info, h, eng); msg != "" {
+				return fmt.Sprintf("%s: %s\n--- source:\n%s", where, msg, src), f
+			}
+		}
+		digest := h.Ledger.Digest()
+		var r host.Result
+		opts := host.Options{Engine: eng, NoAtreeValidation: health}
+		if e.Script {
+			snap := h.Snapshot()
+			r = h.Script(src, nil, opts)
+			if h.Ledger.Digest() != digest {
+				return fmt.Sprintf("%s: a script changed the ledger\n--- source:\n%s", where, src), f
+			}
+			h.Restore(snap)
+		} else {
+			r = h.Tx(src, nil, mapSigners, opts)
+		}
+		if r.Panic != nil {
+			return fmt.Sprintf("%s: Go panic escaped the runtime: %v\n--- source:\n%s", where, r.Panic, src), f
+		}
+		ci := host.Classify(r)
+		if x.Fail == "" {
+			if r.Err != nil {
+				return fmt.Sprintf("%s: the model expects success, got: %s\n--- source:\n%s", where, errText(r), src), f
+			}
+		} else {
+			if r.Err == nil {
+				return fmt.Sprintf("%s: the model expects a failure (%s), but the execution succeeded; logs %v\n--- source:\n%s", where, x.Fail, r.Logs, src), f
+			}
+			if ci.Class != "user" || !ci.HasType(x.ErrType) {
+				return fmt.Sprintf("%s: the model expects a failure of kind %s (error type containing %q), got class=%s types=%v: %s\n--- source:\n%s",
+					where, x.Fail, x.ErrType, ci.Class, ci.Types, errText(r), src), f
+			}
+		}
+		logs := unquoteAll(r.Logs)
+		if len(logs) != len(x.Logs) {
+			return fmt.Sprintf("%s: %d log lines, the model expects %d\n  got:  %v\n  want: %v\n--- source:\n%s", where, len(logs), len(x.Logs), logs, x.Logs, src), f
+		}
+		for k := range logs {
+			if logs[k] != x.Logs[k] {
+				op := "?"
+				var oi int
+				if _, err := fmt.Sscanf(logs[k], "%d:", &oi); err == nil && oi < len(e.Ops) {
+					op = e.Ops[oi].String()
+				}
+				return fmt.Sprintf("%s: observable %d is %q, the model expects %q (operation %s)\n--- source:\n%s", where, k, logs[k], x.Logs[k], op, src), f
+			}
+		}
+		if x.Commits {
+			f.committed++
+			f.reloads++
+			if msg := verifyContState(h, eng, m); msg != "" {
+				return fmt.Sprintf("%s: %s\n--- source:\n%s", where, msg, src), f
+			}
+			if health || i%10 == 9 || i == len(hist.Execs)-1 {
+				rep, msg := healthOf(h)
+				if msg != "" {
+					return fmt.Sprintf("%s: %s\n--- source:\n%s", where, msg, src), f
+				}
+				f.maxSlabs = max(f.maxSlabs, rep.SlabRegisters)
+			}
+			f.split = f.split || x.Facts.GrewBy >= 60
+			f.shrankBig = f.shrankBig || x.Facts.ShrankBy >= 60 || x.Facts.RemovedBig
+		} else if h.Ledger.Digest() != digest {
+			return fmt.Sprintf("%s: a failed execution changed the ledger", where), f
+		}
+		if !x.Commits {
+			if e.Script {
+				f.scripts++
+			} else {
+				f.failed++
+			}
+		}
+		if e.Local {
+			f.localExecs++
+		}
+		f.badIndex = f.badIndex || x.Facts.BadIndex
+		f.maxLen = max(f.maxLen, x.Facts.MaxLen)
+		if hooks != nil && hooks.after != nil {
+			if msg := hooks.after(info, r, h, eng); msg != "" {
+				return fmt.Sprintf("%s: %s\n--- source:\n%s", where, msg, src), f
+			}
+		}
+	}
+	return "", f
+}
+
+var contMutatingKinds = map[string]bool{"append": true, "appendAll": true, "insert": true, "remove": true, "removeFirst": true, "removeLast": true, "dropMany": true,
+	"set": true, "concatAssign": true, "filterAssign": true, "fromVariable": true, "setNil": true, "insertMany": true, "removeMany": true}
+
+// contMutates: some mutating operation ran (its observable was logged) before the execution ended.
+func contMutates(e storgen.ContExec, x storgen.ContExpect) bool {
+	for _, l := range x.Logs {
+		var oi int
+		if _, err := fmt.Sscanf(l, "%d:", &oi); err == nil && oi < len(e.Ops) && contMutatingKinds[e.Ops[oi].Kind] {
+			return true
+		}
+	}
+	return false
+}
+
+func describeContHistory(h storgen.ContHistory) any {
+	var out []string
+	for _, e := range h.Execs {
+		s := "tx"
+		if e.Script {
+			s = "script"
+		}
+		if e.Local {
+			s += "(local)"
+		}
+		s += "{"
+		for i, o := range e.Ops {
+			if i > 0 {
+				s += "; "
+			}
+			s += o.String()
+		}
+		if e.Inject != nil {
+			s += "; " + e.Inject.String()
+		}
+		out = append(out, s+"}")
+	}
+	return map[string]any{"element": storgen.ElemName[h.Elem], "key": []string{"Int", "String"}[h.Key], "execs": out}
+}
+
+func TestC20(t *testing.T) {
+	rec := evid.Start(t, "C20", "model-steered random operation sequences (≤ 25 executions × ≤ 12 operations, up to ~300 operations) on a variable-sized array [E], a constant-sized array [E; 8] and a "+
+		"dictionary {K: E} kept in account storage; E ∈ {Int, String (2–5, 200 and 600 bytes), struct with nested array, [Int] (0–5 and 130 elements)}, K ∈ {Int, String}; operations: append, appendAll, insert, "+
+		"remove, removeFirst, removeLast, bulk removal, index read/write, slice, reverse, concat, filter, map (generated pure closures), contains, firstIndex, toConstantSized/toVariableSized; dictionary insert, "+
+		"remove, index read/write/nil-assignment, containsKey, bulk insert/remove, keys/values/forEachKey/for-in enumeration (all four must agree), forEachKey with early stop; valid and invalid indices; bulk sizes "+
+		"up to 400 cross the atree slab split/merge thresholds; every transaction is a fresh execution (commit + reload), 12% scripts, 35% of the executions work on loaded values that are saved back, the rest "+
+		"in place through storage references. Every logged observable, the error class of invalid indices, and after every commit the ledger-only digests (length + order-sensitive hash) of the three "+
+		"containers are compared with a Go slice/map model; storage health every 10 executions and at the end. Both engines. Non-trivial: the sequence contains a bulk growth ≥ 60 elements (slab split), ≥ 2 "+
+		"commit+reload boundaries and ≥ 1 failing index operation. Distinct by history.")
+
+	if f := evid.ReplayFile(); f != "" {
+		var hist storgen.ContHistory
+		if err := evid.LoadReplay(f, &hist); err != nil {
+			t.Fatalf("bad replay file: %v", err)
+		}
+		for _, eng := range host.Engines {
+			if msg, _ := runContHistory(hist, eng, false, nil); msg != "" {
+				rec.Violation(t, hist, "%s", msg)
+			}
+		}
+		rec.Case(true, toJSON(hist))
+		return
+	}
+
+	rapid.Check(t, func(rt *rapid.T) {
+		hist := storgen.GenContHistory(storgen.FromRapid(rt), storgen.ContGenConfig{MaxExecs: 25, MaxOps: 12})
+		var facts contFacts
+		for _, eng := range host.Engines {
+			msg, f := runContHistory(hist, eng, false, nil)
+			if msg != "" {
+				rt.Fatalf("C20 violation: %s\n--- history (JSON, usable with --replay as {\"case\": …}):\n%s", msg, toJSON(hist))
+			}
+			facts = f
+		}
+		nt := facts.nontrivial()
+		rec.Case(nt, toJSON(hist))
+		rec.Class("elem/" + storgen.ElemName[hist.Elem])
+		rec.Class("key/" + []string{"Int", "String"}[hist.Key])
+		m := storgen.NewContModel(hist.Elem, hist.Key)
+		nops := 0
+		for _, e := range hist.Execs {
+			x := m.Step(e)
+			for i, o := range e.Ops {
+				if i < len(x.Logs) || x.Fail == "" {
+					rec.Class("op/" + o.On + "." + o.Kind)
+					nops++
+				}
+			}
+			switch {
+			case x.Fail == "index":
+				rec.Class("outcome/index-error")
+			case x.Fail == "inject":
+				rec.Class("outcome/abort")
+			case e.Script:
+				rec.Class("outcome/script")
+			case e.Local:
+				rec.Class("outcome/commit-local")
+			default:
+				rec.Class("outcome/commit-ref")
+			}
+		}
+		rec.ClassN("operations", int64(nops))
+		if facts.split {
+			rec.Class("history/slab-split")
+		}
+		if facts.shrankBig {
+			rec.Class("history/bulk-removal-or-big-element-removed")
+		}
+		if facts.maxLen >= 200 {
+			rec.Class("history/len>=200")
+		}
+		if nt && rec.WantSample(storgen.ElemName[hist.Elem]) {
+			rec.Sample(storgen.ElemName[hist.Elem], describeContHistory(hist))
+		}
+	})
+	rec.Extra("engines", []string{"interpreter", "vm"})
 }
